@@ -45,8 +45,8 @@ def event_wire(form, name, tag):
         return (['650 %s' % name], [''])
     # the text of every line of the event is its payload, the end line's too (here that text is "OK", as for every event
     # whose end line is "650 OK"; listeners such as parse_keywords skip it, but it is what Tor sent)
-    return (['650+%s %s head' % (name, tag), 'data 1', '..dotted', '250 OK', '.', '650 OK'],
-            ['%s head' % tag, 'data 1', '.dotted', '250 OK', 'OK'])
+    return (['650+%s %s head' % (name, tag), 'data 1', '..dotted', ' .', '250 OK', '.', '650 OK'],
+            ['%s head' % tag, 'data 1', '.dotted', ' .', '250 OK', 'OK'])
 
 
 class L(object):
@@ -60,7 +60,7 @@ class L(object):
         self.log.append(data)
         w = self.world
         if self.behaviour == 1:
-            raise RuntimeError('listener %d raises' % self.idx)
+            raise RuntimeError('listener %d raises {about: %r}' % (self.idx, data[:8]))     # (an error text with braces and a piece of the payload)
         if self.behaviour == 2:
             w.p.remove_event_listener(SUB, self.handle())
         if self.behaviour == 3:
